@@ -14,7 +14,16 @@ def to_smt2(pc, goal, logic=None):
     for p in pc:
         s.add(p)
     s.add(z3.Not(goal))
-    return s.to_smt2()
+    txt = s.to_smt2()
+    # z3's printer may emit an uninterpreted sort after a datatype that mentions it: hoist the sort declarations
+    lines = txt.split("\n")
+    sorts = [l for l in lines if l.startswith("(declare-sort ")]
+    if sorts:
+        rest = [l for l in lines if not l.startswith("(declare-sort ")]
+        k = next((i for i, l in enumerate(rest) if l.startswith("(declare-") or l.startswith("(assert")), len(rest))
+        lines = rest[:k] + sorts + rest[k:]
+        txt = "\n".join(lines)
+    return txt
 
 
 def _z3_check(smt2: str, timeout_ms: int, seed: int, want_model: bool):
